@@ -214,6 +214,7 @@ def _reader_common(p, styles=("file", "socket"), lemmas=()):
     for st in styles:
         u = CustomUnit(f"{R}read/step[{st}]", ru.step_unit, (st,), props=(p.prop,), cost=50)
         p.add(u)
+        p.replayers[u.name] = ru.replay_step
     for lm in lemmas:
         p.add(CustomUnit(f"lemma.reader/{lm}", ru.lemma_unit, (lm,), props=(p.prop,), cost=5))
     p.trusted_base += [T_PARSERS, T_PARSE_PURE, T_STREAM, T_LIFT,
@@ -361,11 +362,13 @@ def _instance_units(p, select, modes=(0, 1, 2)):
         for k in keys:
             u = CustomUnit(f"init[{inst.MODES[m]}:{k.hex()}]", inst.init_unit, (m, k), props=(p.prop,), cost=2)
             u.select = select
+            u.cacheable = True
             p.add(u)
             p.replayers[u.name] = inst.replay_instance
             n += 1
         u = CustomUnit(f"init[{inst.MODES[m]}:unknown-id]", inst.init_unit, (m, None), props=(p.prop,), cost=60)
         u.select = select
+        u.cacheable = True
         p.add(u)
         p.replayers[u.name] = inst.replay_instance
         n += 1
@@ -510,6 +513,21 @@ def plan_C13(p, tier, seed):
     for f in ("calc_checksum", "isvalid_checksum", "getinputmode", "protocol", "get_bits", "msgclass2bytes"):
         p.func(H + f)
     p.func(R + "parse")
+    from . import configdb, lemmas_misc
+    from .units import factory_unit as _fu
+    lemmas_misc.msgstr_units(p, select=r"/modifies")
+    db, _ = configdb.cfgdb()
+    for lo in range(0, len(db), 60):
+        u = p.add(CustomUnit(f"cfg-lookups[{lo}:{min(lo + 60, len(db))}]", configdb.lookup_chunk_unit, (lo, min(lo + 60, len(db))),
+                             props=("C13",), cost=10))
+        u.select = r"/modifies"
+    u = p.add(CustomUnit("cfg-lookups[residual]", configdb.lookup_residual_unit, (), props=("C13",), cost=20))
+    u.select = r"/modifies"
+    p.replayers[u.name] = configdb.replay_tables_untouched
+    for fn in ("config_set", "config_del", "config_poll"):
+        lab = f"{M}{fn}[id keys]"
+        u = p.add(CustomUnit(lab, _fu, ("contracts.message", "c14_config", (fn, "id"), lab), props=("C13",), cost=40))
+        u.select = r"/modifies"
     p.min_obligations = 4000
     p.trusted_base += [T_INSTANCE, "frames: built-ins are modelled as pure except print (ghost io) and mutators on "
                                    "foreign objects (ghost tables); logging writes to the ghost error log only"]
@@ -561,6 +579,7 @@ def _kw_units(p, select):
         for k in keys:
             u = CustomUnit(f"kwinit[{inst.MODES[m]}:{k.hex()}]", inst.kwargs_unit, (m, k), props=(p.prop,), cost=1)
             u.select = select
+            u.cacheable = True
             p.add(u)
             p.replayers[u.name] = inst.replay_kwinit
             n += 1
@@ -585,7 +604,7 @@ def plan_C03(p, tier, seed):
         "returns the supplied values'; the mixed-radix lemma per flag layout closes the bitfield case. Scaled fields: the "
         "float arithmetic int(round(raw*scale,12)/scale) == raw is outside SMT reach - native enumeration per (type, scale) "
         "pair, exhaustive for 1- and 2-byte types, bounded for wider ones.")
-    n = _kw_units(p, r"/(C03:|.*loop1\[kw\])")
+    n = _kw_units(p, r"/(C03:|C02:variant|.*loop1\[kw\])")
     from contracts.helpers import type_constants, INT_LETTERS
     for T in type_constants():
         p.func(H + "val2bytes", T)
@@ -624,7 +643,7 @@ def plan_C04(p, tier, seed):
     p.func(H + "calc_checksum")
     p.func(H + "msgclass2bytes")
     p.func(R + "parse")
-    _instance_units(p, r"/ensures:(class|id|mode|length-width|length-value|checksum)")
+    _instance_units(p, r"/ensures:(class|id|mode|length-width|length-value|checksum|class-from-name|id-from-name|class-from-int|id-from-int)")
     _kw_units(p, r"/ensures:(class|id|mode|length-width|length-value|checksum)")
     p.add(LemmaUnit(
         "lemma.C04/serialized-message-is-well-formed", "pyubx2.ubxmessage",
@@ -640,6 +659,7 @@ def plan_C04(p, tier, seed):
         [("no-parse-error", "UBXReader.parse(f, msgmode, 1, parsebitfield) is not None")],
         props=("C04",), allow=("UBXMessageError", "UBXTypeError")))
     p.add(GroundUnit("ground.C04/addressing-forms", lemmas_misc.addressing_forms, (), props=("C04",)))
+    lemmas_misc.msgstr_units(p)
     p.min_obligations = 8000
     p.trusted_base += [T_INSTANCE, T_KW]
     p.canary("checksum-b-plus-char", "pyubx2.ubxhelpers", "check_b += check_a", "check_b += char", FuncUnit(H + "calc_checksum"))
@@ -739,9 +759,11 @@ def plan_C14(p, tier, seed):
     n = len(db)
     step = 60
     for lo in range(0, n, step):
-        p.add(CustomUnit(f"cfg-lookups[{lo}:{min(lo + step, n)}]", configdb.lookup_chunk_unit, (lo, min(lo + step, n)),
-                         props=("C14",), cost=10))
-    p.add(CustomUnit("cfg-lookups[residual]", configdb.lookup_residual_unit, (), props=("C14",), cost=20))
+        u = p.add(CustomUnit(f"cfg-lookups[{lo}:{min(lo + step, n)}]", configdb.lookup_chunk_unit, (lo, min(lo + step, n)),
+                             props=("C14",), cost=10))
+        p.replayers[u.name] = configdb.replay_lookup
+    u = p.add(CustomUnit("cfg-lookups[residual]", configdb.lookup_residual_unit, (), props=("C14",), cost=20))
+    p.replayers[u.name] = configdb.replay_lookup
     p.add(GroundUnit("ground.C14/configdb", ground.configdb_rules, (), props=("C14",)))
     p.add(GroundUnit("ground.C14/name-id-agreement", configdb.name_id_agreement, (), props=("C14",)))
     for mode, key in ((0, b"\x06\x8b"), (1, b"\x06\x8a")):
